@@ -103,47 +103,58 @@ def jobs(tier):
     quick = tier == "quick"
     J = []
     A = lambda mk, **kw: J.append(Job("A", mk, max_states=kw.pop("max_states", 400000 if quick else 3000000), **kw))
-    B = lambda mk, **kw: J.append(Job("B", mk, cycles=kw.pop("cycles", 4000 if quick else 40000),
+    B = lambda mk, **kw: J.append(Job("B", mk, cycles=kw.pop("cycles", 3000 if quick else 30000),
                                       runs=kw.pop("runs", 1 if quick else 4), **kw))
     K = "prfl"
-    # ---- mode A: one source, every kind, 8- and 32-bit CSR bus
+    # ---- mode A: one source, every kind, 8- and 32-bit CSR bus; every mask, reads of every register, a write to
+    #      `status`, a write to the same index in another page
     for k in K:
         for dw in (8, 32):
             A(lambda k=k, dw=dw: L.EvInst([k], dw))
-    # ---- two sources, every ordered mix; quick alternates the bus width, thorough takes both
-    for idx, (a, b) in enumerate(itertools.product(K, K)):
-        for dw in ((8, 32)[idx % 2],) if quick else (8, 32):
-            A(lambda a=a, b=b, dw=dw: L.EvInst([a, b], dw))
-    # ---- three sources (one-hot / all / none clear masks, enable all or none, no read letters)
-    mixes3 = ["prf", "lpr", "flp", "rlf"] if quick else ["".join(m) for m in itertools.product(K, K, K)
-                                                        if len(set(m)) >= 2 or m[0] == "r"]
-    for idx, m in enumerate(mixes3):
-        A(lambda m=m, dw=(8, 32)[idx % 2]: L.EvInst(list(m), dw, masks="onehot", reads=False, tag="/onehot"))
-    # ---- more sources than bus bits: `pending`/`enable`/`status` span several words (1- and 2-bit CSR buses)
-    for ordering in ("big", "little"):
-        A(lambda o=ordering: L.EvInst(["p", "r"], 1, o, disciplined=False))
-        A(lambda o=ordering: L.EvInst(["f", "l"], 1, o, disciplined=False))
-        A(lambda o=ordering: L.EvInst(["p", "r", "l"], 2, o, disciplined=False, reads=quick is False))
-        if not quick:
-            A(lambda o=ordering: L.EvInst(["r", "p", "f"], 1, o, disciplined=False, reads=False, masks="onehot"))
+    # ---- two sources: every clear mask x every enable mask x every trigger vector
+    #      quick: the 10 unordered mixes without read letters (bus width alternates) + one mix with reads;
+    #      thorough: all 16 ordered mixes with reads, both bus widths
+    if quick:
+        for idx, (a, b) in enumerate(itertools.combinations_with_replacement(K, 2)):
+            A(lambda a=a, b=b, dw=(8, 32)[idx % 2]: L.EvInst([a, b], dw, reads=False, extra=False, tag="/no reads"))
+        A(lambda: L.EvInst(["l", "p"], 8))
+    else:
+        for a, b in itertools.product(K, K):
+            for dw in (8, 32):
+                A(lambda a=a, b=b, dw=dw: L.EvInst([a, b], dw))
+    # ---- three sources (clear masks none / one-hot / all, enable none / all, no read letters): thorough only
+    if not quick:
+        for idx, m in enumerate(["prf", "lpr", "flp", "rlf", "ppr", "rrr", "fpl", "lfl", "rfp", "plp", "frl", "lrp"]):
+            A(lambda m=m, dw=(8, 32)[idx % 2]: L.EvInst(list(m), dw, masks="onehot", reads=False, extra=False,
+                                                        tag="/onehot"))
+    # ---- more sources than bus bits: `pending`/`enable`/`status` span several words (1- and 2-bit CSR buses);
+    #      single word writes in any order, so stale words of `pending.r` are exercised
+    A(lambda: L.EvInst(["p", "r"], 1, "big", disciplined=False, reads=not quick, extra=not quick))
+    A(lambda: L.EvInst(["f", "l"], 1, "little", disciplined=False, reads=not quick, extra=not quick))
+    if not quick:
+        A(lambda: L.EvInst(["p", "r"], 1, "little", disciplined=False))
+        A(lambda: L.EvInst(["f", "l"], 1, "big", disciplined=False))
+        for ordering in ("big", "little"):
+            A(lambda o=ordering: L.EvInst(["p", "r", "l"], 2, o, disciplined=False, reads=False, extra=False))
+            A(lambda o=ordering: L.EvInst(["l", "p", "l"], 1, o, disciplined=False, reads=False, extra=False))
             A(lambda o=ordering: L.EvInst(["p", "p"], 8, o))
     # ---- SharedIRQ
-    A(lambda: L.SharedInst([["p"], ["r"]], 8))
-    A(lambda: L.SharedInst([["l"], ["f"]], 32))
+    A(lambda: L.SharedInst([["p"], ["l"]], 8))
     if not quick:
-        A(lambda: L.SharedInst([["p"], ["l"], ["r"]], 8))
-        A(lambda: L.SharedInst([["p", "r"], ["f"]], 8))
+        A(lambda: L.SharedInst([["r"], ["f"]], 32))
+        A(lambda: L.SharedInst([["p"], ["l"], ["l"]], 8))
 
     # ---- mode B: bare managers, realistic sizes
-    B(lambda: L.EvInst(rand_kinds(1, 5), 8, trigs=[0]))
+    B(lambda: L.EvInst(rand_kinds(1, 3), 8, trigs=[0]))
     B(lambda: L.EvInst(rand_kinds(2, 8), 8, trigs=[0]))
     B(lambda: L.EvInst(rand_kinds(3, 12), 8, trigs=[0], tag="/whole-register writes"))
     B(lambda: L.EvInst(rand_kinds(3, 12), 8, trigs=[0], disciplined=False, tag="/single-word writes"), with_monitor=False)
     B(lambda: L.EvInst(rand_kinds(4, 20), 8, "little", trigs=[0], tag="/whole-register writes"))
     B(lambda: L.EvInst(rand_kinds(5, 32), 32, trigs=[0]))
     B(lambda: L.EvInst(rand_kinds(6, 35), 32, trigs=[0], tag="/whole-register writes"))
-    B(lambda: L.EvInst(rand_kinds(6, 35), 32, "little", trigs=[0], disciplined=False, tag="/single-word writes"),
-      with_monitor=False)
+    if not quick:
+        B(lambda: L.EvInst(rand_kinds(6, 35), 32, "little", trigs=[0], disciplined=False, tag="/single-word writes"),
+          with_monitor=False)
     B(lambda: L.SharedInst([rand_kinds(7, 3), rand_kinds(8, 4), rand_kinds(9, 2)], 8))
     # ---- mode B: clients with their real trigger logic
     B(lambda: mk_timer(8, 8))
